@@ -1450,7 +1450,7 @@ func TestVerifC16ArbitrationRounds(t *testing.T) {
 	if err := c16aFixtures(); err != nil {
 		t.Fatalf("fixtures: %v", err)
 	}
-	kit.Run(t, kit.Config{Property: "C16", Unit: "rounds", Quick: 1200, Thorough: 24000,
+	kit.Run(t, kit.Config{Property: "C16", Unit: "rounds", Quick: 960, Thorough: 24000,
 		Rule: "generated cluster (2-4 nodes with skewed pod placement, 1-3 namespaces, 1-4 workloads of 1-12 replicas with per-pod readiness/phase, bare pods), start-up snapshot of Running/Succeeded/Failed/Aborted jobs (restart flavour: all re-delivered as Create events; warm flavour: not), 2-12 waiting jobs created by descheduler(with/without Filter)/user(with/without uid), limits global/node/namespace unset|0|1-6, per-workload migrating/unavailable unset|int|percent, eviction gates, injected API write failures; 2-5 real doOnceArbitrate() rounds with reconciler/user/workload activity in between; oracle on the API objects after every round; distinct = (which limits are on, workload limit kinds, flavour, admitted/held-for-headroom/failed classes of the round, set of dimensions that reached their limit in the round, some dimension exceeded before); non-trivial = a case with a round that both admitted a job and held back another live job (existing pod) because some budget had no room"},
 		func(c *kit.Case) {
 			r := c.R
